@@ -16,6 +16,7 @@ import (
 
 // V2 drives aws-v2/client.
 type V2 struct {
+	hangState
 	cs map[string]*v2c.Client
 }
 
@@ -26,6 +27,7 @@ func (b *V2) Name() string { return "v2" }
 
 // Reset creates fresh clients.
 func (b *V2) Reset() {
+	b.resetHang()
 	b.cs = map[string]*v2c.Client{}
 	for _, id := range ClientIDs {
 		b.cs[id] = v2c.NewClient()
@@ -122,17 +124,17 @@ func v2Desc(td *types.TableDescription) Desc {
 
 // AddTable uses the library's helper.
 func (b *V2) AddTable(c, t, hash, rng string) *Resp {
-	return guard(func() *Resp { return b.errResp(v2c.AddTable(bg, b.cs[c], t, hash, rng)) })
+	return b.guard(func() *Resp { return b.errResp(v2c.AddTable(bg, b.cs[c], t, hash, rng)) })
 }
 
 // AddIndex uses the library's helper.
 func (b *V2) AddIndex(c, t, index, hash, rng string) *Resp {
-	return guard(func() *Resp { return b.errResp(v2c.AddIndex(bg, b.cs[c], t, index, hash, rng)) })
+	return b.guard(func() *Resp { return b.errResp(v2c.AddIndex(bg, b.cs[c], t, index, hash, rng)) })
 }
 
 // DeleteIndex issues UpdateTable with a Delete action.
 func (b *V2) DeleteIndex(c, t, index string) *Resp {
-	return guard(func() *Resp {
+	return b.guard(func() *Resp {
 		_, err := b.cs[c].UpdateTable(bg, &dynamodb.UpdateTableInput{TableName: aws.String(t),
 			GlobalSecondaryIndexUpdates: []types.GlobalSecondaryIndexUpdate{{Delete: &types.DeleteGlobalSecondaryIndexAction{IndexName: aws.String(index)}}}})
 		return b.errResp(err)
@@ -141,7 +143,7 @@ func (b *V2) DeleteIndex(c, t, index string) *Resp {
 
 // CreateTable issues the full request.
 func (b *V2) CreateTable(c string, ev *Event) *Resp {
-	return guard(func() *Resp {
+	return b.guard(func() *Resp {
 		in := &dynamodb.CreateTableInput{TableName: aws.String(ev.T), BillingMode: types.BillingMode(ev.Billing)}
 		for _, a := range ev.Attrs {
 			in.AttributeDefinitions = append(in.AttributeDefinitions, types.AttributeDefinition{AttributeName: aws.String(a.N), AttributeType: types.ScalarAttributeType(a.Ty)})
@@ -186,7 +188,7 @@ func (b *V2) CreateTable(c string, ev *Event) *Resp {
 
 // DeleteTable deletes a table.
 func (b *V2) DeleteTable(c, t string) *Resp {
-	return guard(func() *Resp {
+	return b.guard(func() *Resp {
 		_, err := b.cs[c].DeleteTable(bg, &dynamodb.DeleteTableInput{TableName: aws.String(t)})
 		return b.errResp(err)
 	})
@@ -194,7 +196,7 @@ func (b *V2) DeleteTable(c, t string) *Resp {
 
 // Describe describes a table.
 func (b *V2) Describe(c, t string) *Resp {
-	return guard(func() *Resp {
+	return b.guard(func() *Resp {
 		out, err := b.cs[c].DescribeTable(bg, &dynamodb.DescribeTableInput{TableName: aws.String(t)})
 		r := b.errResp(err)
 		if err == nil && out != nil {
@@ -206,7 +208,7 @@ func (b *V2) Describe(c, t string) *Resp {
 
 // Clear uses the library's helper.
 func (b *V2) Clear(c, t string) *Resp {
-	return guard(func() *Resp { return b.errResp(v2c.ClearTable(b.cs[c], t)) })
+	return b.guard(func() *Resp { return b.errResp(v2c.ClearTable(b.cs[c], t)) })
 }
 
 func v2Names(m map[string]string) map[string]string {
@@ -229,7 +231,7 @@ func v2Values(it Item) map[string]types.AttributeValue {
 
 // Put issues PutItem.
 func (b *V2) Put(c, t string, item Item, w WriteArgs) *Resp {
-	return guard(func() *Resp {
+	return b.guard(func() *Resp {
 		in := &dynamodb.PutItemInput{TableName: aws.String(t), Item: ItemToV2(item), ConditionExpression: w.Cond,
 			ExpressionAttributeNames: v2Names(w.Names), ExpressionAttributeValues: v2Values(w.Values)}
 		if w.Rvf {
@@ -246,7 +248,7 @@ func (b *V2) Put(c, t string, item Item, w WriteArgs) *Resp {
 
 // Get issues GetItem.
 func (b *V2) Get(c, t string, key Item) *Resp {
-	return guard(func() *Resp {
+	return b.guard(func() *Resp {
 		out, err := b.cs[c].GetItem(bg, &dynamodb.GetItemInput{TableName: aws.String(t), Key: ItemToV2(key)})
 		r := b.errResp(err)
 		if err == nil && out != nil {
@@ -258,7 +260,7 @@ func (b *V2) Get(c, t string, key Item) *Resp {
 
 // GetProj issues GetItem with a ProjectionExpression.
 func (b *V2) GetProj(c, t string, key Item, proj []string) *Resp {
-	return guard(func() *Resp {
+	return b.guard(func() *Resp {
 		out, err := b.cs[c].GetItem(bg, &dynamodb.GetItemInput{TableName: aws.String(t), Key: ItemToV2(key), ProjectionExpression: aws.String(strings.Join(proj, ", "))})
 		r := b.errResp(err)
 		if err == nil && out != nil {
@@ -270,7 +272,7 @@ func (b *V2) GetProj(c, t string, key Item, proj []string) *Resp {
 
 // Update issues UpdateItem with ReturnValues = ALL_NEW.
 func (b *V2) Update(c, t string, key Item, upd string, w WriteArgs) *Resp {
-	return guard(func() *Resp {
+	return b.guard(func() *Resp {
 		in := &dynamodb.UpdateItemInput{TableName: aws.String(t), Key: ItemToV2(key), UpdateExpression: aws.String(upd),
 			ConditionExpression: w.Cond, ExpressionAttributeNames: v2Names(w.Names), ExpressionAttributeValues: v2Values(w.Values),
 			ReturnValues: types.ReturnValueAllNew}
@@ -288,7 +290,7 @@ func (b *V2) Update(c, t string, key Item, upd string, w WriteArgs) *Resp {
 
 // Delete issues DeleteItem.
 func (b *V2) Delete(c, t string, key Item, w WriteArgs) *Resp {
-	return guard(func() *Resp {
+	return b.guard(func() *Resp {
 		in := &dynamodb.DeleteItemInput{TableName: aws.String(t), Key: ItemToV2(key), ConditionExpression: w.Cond,
 			ExpressionAttributeNames: v2Names(w.Names), ExpressionAttributeValues: v2Values(w.Values)}
 		if w.Retold {
@@ -316,7 +318,7 @@ func v2Items(in []map[string]types.AttributeValue) []Item {
 
 // Read issues Query or Scan.
 func (b *V2) Read(c string, q *ReadArgs) *Resp {
-	return guard(func() *Resp {
+	return b.guard(func() *Resp {
 		var lim *int32
 		if q.Limit != nil {
 			lim = aws.Int32(int32(*q.Limit))
@@ -352,7 +354,7 @@ func (b *V2) Read(c string, q *ReadArgs) *Resp {
 
 // BatchWrite issues BatchWriteItem; requests keep their order inside each table.
 func (b *V2) BatchWrite(c string, reqs []WriteReq) *Resp {
-	return guard(func() *Resp {
+	return b.guard(func() *Resp {
 		in := &dynamodb.BatchWriteItemInput{RequestItems: map[string][]types.WriteRequest{}}
 		for _, rq := range reqs {
 			wr := types.WriteRequest{}
@@ -391,7 +393,7 @@ func (b *V2) BatchWrite(c string, reqs []WriteReq) *Resp {
 
 // BatchGet issues BatchGetItem.
 func (b *V2) BatchGet(c string, reqs []GetReq) *Resp {
-	return guard(func() *Resp {
+	return b.guard(func() *Resp {
 		in := &dynamodb.BatchGetItemInput{RequestItems: map[string]types.KeysAndAttributes{}}
 		for _, rq := range reqs {
 			ka := in.RequestItems[rq.T]
@@ -426,7 +428,7 @@ func (b *V2) BatchGet(c string, reqs []GetReq) *Resp {
 
 // Transact issues an empty TransactWriteItems.
 func (b *V2) Transact(c string) *Resp {
-	return guard(func() *Resp {
+	return b.guard(func() *Resp {
 		_, err := b.cs[c].TransactWriteItems(bg, &dynamodb.TransactWriteItemsInput{})
 		return b.errResp(err)
 	})
@@ -434,7 +436,7 @@ func (b *V2) Transact(c string) *Resp {
 
 // Fail switches the emulated failure mode.
 func (b *V2) Fail(c, mode string) *Resp {
-	return guard(func() *Resp {
+	return b.guard(func() *Resp {
 		switch mode {
 		case "none":
 			v2c.EmulateFailure(b.cs[c], v2c.FailureConditionNone)
